@@ -10,7 +10,7 @@ Import LC LCS.
 Theorem model_step_partial cfg w e cmd um :
   wf_cfg cfg = true -> is_dir (wo_fs w) [sl] = true ->
   wf_table (ks_tab (wo_ks w)) = true -> cfg_dirs_ok cfg = true -> layer_names_distinct cfg w = true ->
-  sources_agree cfg w = true -> dir_test_agrees cfg w = true -> no_foreign_on_missing_source cfg w = true ->
+  sources_agree cfg w = true -> dir_test_agrees cfg w = true -> no_shown_on_missing_source cfg w = true ->
   C08.step_spec cfg w (view_of_model cfg w e cmd um) = true.
 Proof.
   intros H1 H2 H3 H4 H5 H6 H7 H8.
@@ -29,12 +29,12 @@ Proof. intros H1 H2 H3. apply mounted_means_complete; [exact H2|now apply dir_te
 
 (* (b) with syntactic hypotheses where there are any: what remains semantic is
    [own_mounts_shown] (the mounts on import mountpoints are the configured ones, of a kind
-   GetMountSources reconstructs) and [no_foreign_on_missing_source] *)
+   GetMountSources reconstructs) and [no_shown_on_missing_source] *)
 Theorem state_is_documented_syntactic cfg w e um :
   wf_cfg cfg = true -> cfg_dirs_ok cfg = true ->
   wf_table (ks_tab (wo_ks w)) = true -> regular_table (ks_tab (wo_ks w)) = true ->
   fs_paths_ok (wo_fs w) = true -> sources_shallow cfg w = true ->
-  own_mounts_shown cfg w = true -> no_foreign_on_missing_source cfg w = true ->
+  own_mounts_shown cfg w = true -> no_shown_on_missing_source cfg w = true ->
   C08.step_spec cfg w (view_of_model cfg w e CProbe um) = true.
 Proof.
   intros H1 H2 H3 H4 H5 H6 H7 H8. apply state_is_documented_partial; try assumption.
@@ -47,6 +47,6 @@ Example C08_syntactic_hyps_nontrivial :
   wf_cfg ex_cfg = true /\ cfg_dirs_ok ex_cfg = true
   /\ wf_table (ks_tab (wo_ks ex_w1)) = true /\ regular_table (ks_tab (wo_ks ex_w1)) = true
   /\ fs_paths_ok (wo_fs ex_w1) = true /\ sources_shallow ex_cfg ex_w1 = true
-  /\ own_mounts_shown ex_cfg ex_w1 = true /\ no_foreign_on_missing_source ex_cfg ex_w1 = true
+  /\ own_mounts_shown ex_cfg ex_w1 = true /\ no_shown_on_missing_source ex_cfg ex_w1 = true
   /\ sources_shallow ex_cfg w_deep = false /\ fs_paths_ok (wo_fs w_dup) = false.
 Proof. vm_compute. repeat split; reflexivity. Qed.
